@@ -26,6 +26,10 @@ TC == [k |-> "C"]   TE == [k |-> "E"]
 TG(a) == [k |-> "G", a |-> a]
 TIG == [k |-> "IG", a |-> [k |-> "int"]]
 TVar == [k |-> "tvar"]
+\* user classes that can be iterated: Cd is its own iterator (__iter__ returns the class itself, __next__ gives int),
+\* Ws hands out an Iterator[str]
+TCd == [k |-> "Cd"]   TWs == [k |-> "Ws"]
+Yields(t) == IF t.k = "Cd" THEN [k |-> "int"] ELSE [k |-> "str"]
 \* a declared name for a type (TypeAlias) and an optional: both are transparent for what can be done with the value
 TAlias(name, t) == [k |-> "alias", name |-> name, t |-> t]
 TOpt(t) == [k |-> "opt", t |-> t]
@@ -77,7 +81,7 @@ Vars == { R("n", TInt), R("x", TFloat), R("b", TBool), R("s", TStr),
           R("xa", TAlias("Ints", TList(TInt))), R("rows", TAlias("Rows", TList(TList(TInt)))), R("da", TAlias("DS", TDict(TInt))),
           R("xo", TOpt(TList(TInt))), R("co", TOpt(TC)), R("lo", TOpt(TList(TC))),
           R("xn", TOptN(TList(TInt))), R("cn", TOptN(TC)), R("ln", TOptN(TList(TC))),
-          R("gi", TG(TInt)), R("gs", TG(TStr)), R("ig", TIG) }
+          R("gi", TG(TInt)), R("gs", TG(TStr)), R("ig", TIG), R("cd", TCd), R("wz", TWs) }
 \* members of G: fields and methods whose declared types hold the type variable at depth 0, 1 and 2, under an optional
 GFields == { <<"v", TVar>>, <<"vs", TList(TVar)>>, <<"rows", TList(TList(TVar))>>, <<"idx", TDict(TList(TVar))>>,
              <<"opt", TOpt(TVar)>>, <<"spare", TOpt(TList(TVar))>>, <<"pair", TTuple(TVar, TList(TVar))>> }
@@ -108,6 +112,10 @@ Step(S0) ==
   \cup {R(W(e, 16) \o "." \o f[1], Subst(f[2], e.ty.a)) : e \in {z \in S : z.ref /\ z.ty.k \in {"G", "IG"}}, f \in GFields}
   \cup {R(W(e, 16) \o "." \o f[1] \o "()", Subst(f[2], e.ty.a)) : e \in {z \in S : z.ref /\ z.ty.k \in {"G", "IG"}}, f \in GMethods}
   \cup {X("[v for v in " \o W(e, 3) \o "]", e.ty) : e \in {z \in S : z.ty.k = "list"}}
+  \* iteration through the iterator protocol of a user class: the element is what __next__ (or the Iterator) gives
+  \cup {X("[v for v in " \o W(e, 3) \o "]", TList(Yields(e.ty))) : e \in {z \in S : z.ty.k \in {"Cd", "Ws"}}}
+  \cup {X("[[v] for v in " \o W(e, 3) \o "]", TList(TList(Yields(e.ty)))) : e \in {z \in S : z.ty.k \in {"Cd", "Ws"}}}
+  \cup {X("{s: v for v in " \o W(e, 3) \o "}", TDict(Yields(e.ty))) : e \in {z \in S : z.ty.k \in {"Cd", "Ws"}}}
   \cup {X("[len(v) for v in " \o W(e, 3) \o "]", TList(TInt)) : e \in {z \in S : z.ty.k = "list" /\ z.ty.e.k \in {"str", "list"}}}
   \cup {X("{k2: v2 for k2, v2 in " \o W(e, 16) \o ".items()}", e.ty) : e \in {z \in S : z.ref /\ z.ty.k = "dict"}}
   \cup {Xp(W(e, 3) \o " if b else " \o W(e, 2), e.ty, 2) : e \in {z \in SP : z.ty.k \in {"int", "str", "list", "C"}}}
@@ -140,7 +148,7 @@ Determined(t) == CASE t.k = "list" -> Determined(t.e) [] t.k = "dict" -> Determi
                    [] t.k = "tuple" -> Determined(t.a) /\ Determined(t.b)
                    [] t.k \in {"alias", "opt", "optn"} -> Determined(t.t)
                    [] t.k \in {"G", "IG"} -> Determined(t.a)
-                   [] OTHER -> t.k \in {"int", "float", "bool", "str", "C", "E"}
+                   [] OTHER -> t.k \in {"int", "float", "bool", "str", "C", "E", "Cd", "Ws"}
 Total == \A e \in Universe : Determined(e.ty)
 
 Emit == \A e \in Universe : PrintT("CASE " \o ToJson([text |-> e.text, type |-> Describe(e.ty), rtype |-> RunTime(e.ty)]))
